@@ -1337,5 +1337,25 @@ func ruleFlagsHaveTheLastWord(c *Check, p *Prog, rule string) {
 			c.Bad(rule, inst, fnName(fn), p.InstrPos(is.In), "the caller's value is copied into the merged settings only under a test on what a viper holds ("+why+"): an option given on the command line can be left to the file's value", nil)
 		}
 	}
-	c.MinInstances(rule, 2)
+	// (c) every key of the caller's viper is copied: no way round the loop without a Set
+	{
+		hdr := loopHeaderOf(inputSets[0].In.Block())
+		var head *Node
+		if hdr != nil {
+			head = g.headNode(inputSets[0].Ctx, hdr)
+		}
+		if head == nil {
+			c.Unk(rule, "LoadFromViper ⟂ every key of the caller is copied", fnName(fn), p.InstrPos(inputSets[0].In), "anchor lost: the loop over the caller's keys")
+		} else {
+			var body []*Node
+			for _, s := range head.Succ {
+				body = append(body, s)
+			}
+			// the body: what leads back to the head; the exit edge does not
+			path := g.PathAvoiding(body, func(x *Node) bool { return x == head }, nodeSet(inputSets))
+			c.Decide(rule, "LoadFromViper ⟂ every key of the caller is copied", fnName(fn), p.InstrPos(inputSets[0].In), "no iteration over the caller's keys ends without a Set of that key's value",
+				"the loop over the caller's keys can pass a key over without copying it into the merged settings (for example every key that lacks the flag prefix): a flag registered under such a name — the chain id — is silently dropped, and the file's value or the default wins over the command line", g, path)
+		}
+	}
+	c.MinInstances(rule, 3)
 }
